@@ -35,7 +35,7 @@ LEVEL_TEXT = ("General theorems for the numeric configuration axes (knot range, 
               "GEOMDL_CACHE_SIZE in fresh subprocesses and num_procs in {1,2,4,8} with real process pools.")
 LEVEL_NOTE = "configuration independence = cross-configuration equality up to 1e-9 on every sampled query + general theorems on the model"
 # functions of the numerical core this property rests on that are also tied by the translator (tie theorems: Props/C03.v, Proofs/GenTie*.v)
-TRANSLATED = ["helpers.find_span_linear", "helpers.find_span_binsearch", "helpers.find_spans", "knotvector.normalize", "helpers.curve_deriv_cpts", "helpers.surface_deriv_cpts"]
+TRANSLATED = ["helpers.find_span_linear", "helpers.find_span_binsearch", "helpers.find_spans", "knotvector.normalize", "helpers.curve_deriv_cpts", "helpers.surface_deriv_cpts", "evaluators.CurveEvaluator.evaluate", "evaluators.CurveEvaluatorRational.evaluate", "evaluators.SurfaceEvaluator.evaluate", "evaluators.SurfaceEvaluatorRational.evaluate", "evaluators.VolumeEvaluator.evaluate", "evaluators.VolumeEvaluatorRational.evaluate", "helpers.basis_function_all", "evaluators.CurveEvaluator.derivatives", "evaluators.CurveEvaluatorRational.derivatives", "evaluators.CurveEvaluator2.derivatives", "evaluators.SurfaceEvaluator.derivatives", "evaluators.SurfaceEvaluatorRational.derivatives", "evaluators.SurfaceEvaluator2.derivatives"]
 TECHNIQUE = "Coq proofs (induction on the A2.2 scan, loop invariant of the binary search with fuel, list lemmas) + cross-configuration oracles"
 
 
